@@ -332,7 +332,7 @@ FLOAT, MPF, FRACTION = FloatDom(), MpfDom(), FracDom()
 # ---------------------------------------------------------------------------------------------
 # interpreter
 # ---------------------------------------------------------------------------------------------
-def run(prog: Prog, args, dom=FLOAT, want_sig=True):
+def run(prog: Prog, args, dom=FLOAT, want_sig=True, margins=None):
     """args: list of flat sequences (column-major nonzeros), one per function input.
     returns (outs, sig): outs = list of flat lists per output; sig = tuple of 0/1 per branchy instr
     (for fmin/fmax: 1 if the first argument wins)."""
@@ -353,6 +353,8 @@ def run(prog: Prog, args, dom=FLOAT, want_sig=True):
             if a is POISON or b is POISON:
                 t = (op == OP_NE)
                 sig.append(1 if t else 0)
+                if margins is not None:
+                    margins.append(float("nan"))
                 w[o[0]] = dom.boolv(t)
                 continue
             if op == OP_LT:
@@ -364,6 +366,11 @@ def run(prog: Prog, args, dom=FLOAT, want_sig=True):
             else:
                 t = a != b
             sig.append(1 if t else 0)
+            if margins is not None:
+                try:
+                    margins.append(float(a) - float(b))
+                except Exception:  # noqa: BLE001
+                    margins.append(float("nan"))
             w[o[0]] = dom.boolv(t)
         elif op == OP_IF_ELSE_ZERO:
             w[o[0]] = w[i[1]] if dom.truth(w[i[0]]) else dom.zero
@@ -388,6 +395,11 @@ def run(prog: Prog, args, dom=FLOAT, want_sig=True):
                 t = 1 if a > b else 0
                 r = a if t else b
             sig.append(t)
+            if margins is not None:
+                try:
+                    margins.append(float(a) - float(b))
+                except Exception:  # noqa: BLE001
+                    margins.append(float("nan"))
             w[o[0]] = r
         elif len(i) == 1:
             fn = un.get(op)
